@@ -7,6 +7,7 @@ import VirtioVerif.Model.Mmio
 import VirtioVerif.Model.Config
 import VirtioVerif.Model.PciBus
 import VirtioVerif.Model.PciCap
+import VirtioVerif.Model.VsockConn
 /-!
 Native line-protocol driver over all models: one request line in, one reply line out.
 `case …` lines reset per-case state and are echoed as `case`.
@@ -19,6 +20,7 @@ structure World where
   blk : Option Blk.State := none
   net : Option Net.W := none
   pci : Option PciCap.Transport := none
+  vsock : VsockConn.World := {}
 
 def World.fresh : World := {}
 
@@ -36,6 +38,7 @@ def step (w : World) (line : String) : World × String :=
   | "pcicap" :: op :: rest =>
     let (t, o) := PciCap.handle w.pci op (Proto.parseArgs rest)
     ({ w with pci := t }, o)
+  | "vsock" :: op :: rest => let (v, o) := VsockConn.handle w.vsock op (Proto.parseArgs rest); ({ w with vsock := v }, o)
   | _ => (w, "bad-op")
 
 partial def loop (h : IO.FS.Stream) (out : IO.FS.Stream) (w : World) : IO Unit := do
